@@ -192,6 +192,19 @@ func VerifC16Strip() {
 			nd.Assert(r == s[:rhi], "rstrip-reference")
 		}
 	}
+	// multi-byte characters at the ends (last byte 0xA0 or 0x85 among them) are not whitespace
+	for _, c := range []struct{ in, strip, l, r string }{
+		{" voil\u00e0 \n", "voil\u00e0", "voil\u00e0 \n", " voil\u00e0"},
+		{"\u00c5", "\u00c5", "\u00c5", "\u00c5"},
+		{"\t\u4e85x\u4e85\t", "\u4e85x\u4e85", "\u4e85x\u4e85\t", "\t\u4e85x\u4e85"},
+		{"\U0001F620 ", "\U0001F620", "\U0001F620 ", "\U0001F620"},
+	} {
+		bb := map[string]any{"s": c.in}
+		r1, ok1 := c16EvalStr("s | strip", bb, "strip-mb")
+		r2, ok2 := c16EvalStr("s | lstrip", bb, "lstrip-mb")
+		r3, ok3 := c16EvalStr("s | rstrip", bb, "rstrip-mb")
+		nd.Assert(ok1 && ok2 && ok3 && r1 == c.strip && r2 == c.l && r3 == c.r, "strip-family-multibyte")
+	}
 	nd.Reach("C16.strip")
 }
 
